@@ -56,5 +56,23 @@ func VerifPoolDrain(p router.UnderlayProvider) map[string][]*router.Packet {
 	return out
 }
 
+// VerifPoolReleaseProcessors closes the processor queues that were handed to Start, so that the
+// dataplane's processor goroutines (which only look at the running flag when their queue
+// delivers something) terminate. Only to be called after the dataplane was shut down and
+// VerifPoolDrain has emptied the queues.
+func VerifPoolReleaseProcessors(p router.UnderlayProvider) {
+	u := p.(*provider)
+	u.mu.Lock()
+	defer u.mu.Unlock()
+	for _, l := range u.allLinks {
+		if il, ok := l.(*internalLink); ok {
+			for _, q := range il.procQs {
+				close(q)
+			}
+			return
+		}
+	}
+}
+
 // VerifPoolBatchSize returns the provider's batch size.
 func VerifPoolBatchSize(p router.UnderlayProvider) int { return p.(*provider).batchSize }
